@@ -94,6 +94,29 @@ func scribble(v interface{}) {
 	}
 }
 
+// actAltEqual: the C12 CLI harness names every library call whose output equals the program's ("act=A|B;..."); when the
+// outputs of two calls coincide on an input (an empty CSV dump and an empty listing, say) the program's dispatch cannot be
+// told apart by what it prints, and the expected single action is accepted if it is among those named.
+func actAltEqual(exp, got string) bool {
+	if !strings.HasPrefix(exp, "act=") || !strings.HasPrefix(got, "act=") {
+		return false
+	}
+	k := strings.IndexByte(got, ';')
+	acts, rest := got[4:], ""
+	if k >= 0 {
+		acts, rest = got[4:k], got[k:]
+	}
+	if !strings.Contains(acts, "|") {
+		return false
+	}
+	for _, a := range strings.Split(acts, "|") {
+		if exp == "act="+a+rest {
+			return true
+		}
+	}
+	return false
+}
+
 func runCase(f Fn, args []string) (res string) {
 	done := make(chan string, 1)
 	go func() {
@@ -136,7 +159,7 @@ func runCase(f Fn, args []string) (res string) {
 	select {
 	case r := <-done:
 		return r
-	case <-time.After(20 * time.Second):
+	case <-time.After(90 * time.Second): // generous: checks run next to other jobs; hangs are still caught
 		return "timeout"
 	}
 }
@@ -236,8 +259,8 @@ func main() {
 				sum.DistinctNontrivial++
 			}
 		}
-		eqS := S == "-" || I == S
-		eqM := I == M
+		eqS := S == "-" || I == S || actAltEqual(S, I)
+		eqM := I == M || actAltEqual(M, I)
 		if S != "-" {
 			sum.WithSpec++
 		}
